@@ -180,14 +180,15 @@ public:
         spin_wait_while_eq(tail_counter, k);
         d1::call_itt_notify(d1::acquired, &tail_counter);
         padded_page *p = head_page.load(std::memory_order_relaxed);
-        __TBB_ASSERT( p, nullptr );
+        // p is null or the invalid-page marker if the push that owns ticket k failed to allocate its page
+        __TBB_ASSERT( p || (tail_counter.load(std::memory_order_relaxed) & 1), nullptr );
         size_type index = modulo_power_of_two( k/queue_rep_type::n_queue, items_per_page );
         bool success = false;
         {
             page_allocator_type page_allocator(allocator);
             micro_queue_pop_finalizer<self_type, value_type, page_allocator_type> finalizer(*this, page_allocator,
                 k + queue_rep_type::n_queue, index == items_per_page - 1 ? p : nullptr );
-            if (p->mask.load(std::memory_order_relaxed) & (std::uintptr_t(1) << index)) {
+            if (is_valid_page(p) && (p->mask.load(std::memory_order_relaxed) & (std::uintptr_t(1) << index))) {
                 success = true;
                 assign_and_destroy_item(dst, *p, index);
             } else {
